@@ -59,6 +59,7 @@ status storage::delete_storage(std::string_view storage_name) { // NOLINT
         return status::WARN_NOT_EXIST;
     }
     // try remove the storage.
+    YAKUSHIMA_VERIF_POINT(7);
     status ret_st{remove(token, get_storages(), storage_name)};
     if (ret_st == status::OK) {
         base_node* tables_root = ret.first->load_root_ptr();
